@@ -1,68 +1,161 @@
+import SlotVerif.Model.ProofCheck
 import SlotVerif.Props.C01
 /-!
 # C07 — Explanations are valid proofs of the queried equation
 
-Proof *construction* (`explain/`) is not modelled.  The Lean side is an **independent checker that
-works on terms**: every node of an exported proof DAG claims an equation `l = r` between terms and
-names its premises; the checker accepts the node if the claim follows from the premises' claims
-(for a leaf: from the one asserted equation carrying the leaf's justification) in the specification
-`Cong` — decided by the verified-sound saturation oracle, run with exactly those equations.  Proved
-here: if every node of a DAG is locally accepted, then every claim of the DAG — in particular the
-root — is derivable from the asserted equations alone (`dag_sound`), for DAGs of any size.
+Proof *construction* (`src/explain/`, the proof-carrying union-find and groups) is not modelled.
+The Lean side is an **independent checker that works on terms** (`Model/ProofCheck.lean`): every
+node of an exported proof DAG claims an equation between terms and names its premises; a node is
+accepted if its claim follows from its premises' claims alone — for a leaf: from the asserted
+equation carrying the leaf's justification — in the specification `Cong`, decided by the
+verified-sound saturation oracle run with exactly those equations.
+
+Proved here, for DAGs of any size and shape and for *every* choice of the heuristics `Heur`
+(universe, candidate pairs, fuel):
+
+* `accepts_sound`   — an accepted claim is `Cong`-derivable from the equations handed to the oracle;
+* `leaf_sound`      — an accepted leaf follows from the asserted equations carrying its own label;
+* `checkDag_sound`  — if every node is accepted then *every* claim in the DAG, in particular the
+                      root, is derivable from the asserted equations (strong induction over the DAG);
+* `conclusion_transfers` — if the root claim matches the queried pair up to an injective renaming
+                      (`Orc.instOf`), the queried equation itself is derivable.
 -/
 namespace SV.C07
-open SV SV.Term
+open SV SV.Term SV.PC
 
-/-- one node of an exported proof DAG -/
-structure PNode where
-  l : Term
-  r : Term
-  premises : List Nat                 -- indices of earlier nodes
-  leaf : Option (Term × Term) := none -- for an explicit step: the asserted equation it instantiates
+theorem closure_inv (gen : Orc → List (Nat × Nat)) : ∀ (fuel : Nat) (o : Orc), Orc.Inv o → o.cls.size = o.univ.size →
+    Orc.Inv (closure gen fuel o) ∧ (closure gen fuel o).E = o.E
+  | 0, o, h, _ => ⟨h, rfl⟩
+  | k + 1, o, h, hsz => by
+    simp only [closure]
+    split
+    · exact ⟨h, rfl⟩
+    · have hr := Orc.run_sound (gen o) h hsz
+      split
+      · exact ⟨hr.1, hr.2.1⟩
+      · have := closure_inv gen k _ hr.1 hr.2.2.2
+        exact ⟨this.1, this.2.trans hr.2.1⟩
 
-/-- the equations a node may use: the claims of its premises, and the asserted equation of a leaf -/
-def localEqs (nodes : List PNode) (n : PNode) : List (Term × Term) :=
-  (n.premises.filterMap fun i => (nodes[i]?).map fun p => (p.l, p.r)) ++ n.leaf.toList
+/-- **the oracle's "yes" is a derivation** -/
+theorem accepts_sound (h : Heur) (E : List (Term × Term)) (l r : Term) (ha : accepts h E l r = true) :
+    Cong E l r := by
+  unfold accepts at ha
+  generalize hu : h.uni E l r = u at ha
+  obtain ⟨pool, univ, index⟩ := u
+  simp only at ha
+  have hc := closure_inv h.gen h.fuel _ (Orc.init_inv E pool univ index) (by simp)
+  generalize closure h.gen h.fuel _ = o at ha hc
+  split at ha
+  · rename_i i j hi hj
+    have := hc.1 i j l r (Orc.lookup_some hi) (Orc.lookup_some hj) (by simpa using ha)
+    rwa [hc.2] at this
+  · simp at ha
 
-/-- a DAG is locally valid w.r.t. the asserted equations `A` -/
-def LocallyValid (A : List (Term × Term)) (nodes : List PNode) : Prop :=
-  ∀ (i : Nat) (n : PNode), nodes[i]? = some n →
-    (∀ j ∈ n.premises, j < i) ∧
-    (∀ e, n.leaf = some e → e ∈ A) ∧
-    Cong (localEqs nodes n) n.l n.r
+theorem mem_premiseEqs {nodes : List PNode} {n : PNode} {a b : Term} (hm : (a, b) ∈ premiseEqs nodes n) :
+    ∃ j p, j ∈ n.premises ∧ nodes[j]? = some p ∧ p.l = a ∧ p.r = b := by
+  simp only [premiseEqs, List.mem_filterMap] at hm
+  obtain ⟨j, hj, hjn⟩ := hm
+  cases hp : nodes[j]? with
+  | none => rw [hp] at hjn; simp at hjn
+  | some p =>
+    rw [hp] at hjn
+    simp at hjn
+    exact ⟨j, p, hj, hp, hjn.1, hjn.2⟩
 
-/-- **soundness of the proof-DAG checker**: every claim of a locally valid DAG follows from the asserted equations -/
-theorem dag_sound (A : List (Term × Term)) (nodes : List PNode) (h : LocallyValid A nodes) :
-    ∀ (i : Nat) (n : PNode), nodes[i]? = some n → Cong A n.l n.r := by
+theorem mem_leafEqs {A : List Asserted} {n : PNode} {a b : Term} (hm : (a, b) ∈ leafEqs A n) :
+    ∃ x ∈ A, some x.label = n.label ∧ x.l = a ∧ x.r = b := by
+  unfold leafEqs at hm
+  split at hm
+  · rename_i lb hl
+    simp only [List.mem_map, List.mem_filter] at hm
+    obtain ⟨x, ⟨hx, hlb⟩, he⟩ := hm
+    simp at he
+    exact ⟨x, hx, by rw [hl]; simpa using hlb, he.1, he.2⟩
+  · simp at hm
+
+def eqsOf (A : List Asserted) : List (Term × Term) := A.map fun a => (a.l, a.r)
+
+/-- an accepted leaf follows from the asserted equations that carry **its** justification -/
+theorem leaf_sound (h : Heur) (A : List Asserted) (nodes : List PNode) (i : Nat) (n : PNode)
+    (hr : n.rule = .explicit) (hc : checkNode h A nodes i n = true) :
+    Cong (eqsOf (A.filter fun a => some a.label == n.label)) n.l n.r := by
+  simp only [checkNode, hr, Bool.and_eq_true] at hc
+  apply cong_lift _ (accepts_sound h _ _ _ hc.2)
+  intro a b hm
+  obtain ⟨x, hx, hl, h1, h2⟩ := mem_leafEqs hm
+  apply Cong.ax
+  simp only [eqsOf, List.mem_map, List.mem_filter]
+  exact ⟨x, ⟨hx, by simpa using hl⟩, by rw [h1, h2]⟩
+
+theorem checkFrom_all (h : Heur) (A : List Asserted) (nodes : List PNode) :
+    ∀ (rest : List PNode) (i : Nat), checkFrom h A nodes i rest = true →
+      ∀ k n, rest[k]? = some n → checkNode h A nodes (i + k) n = true
+  | [], _, _, k, n, hk => by simp at hk
+  | m :: rest, i, hc, k, n, hk => by
+    simp only [checkFrom, Bool.and_eq_true] at hc
+    cases k with
+    | zero => simp at hk; subst hk; simpa using hc.1
+    | succ k =>
+      have := checkFrom_all h A nodes rest (i + 1) hc.2 k n (by simpa using hk)
+      rwa [Nat.add_assoc, Nat.add_comm 1 k] at this
+
+/-- **soundness of the proof-DAG checker**: every claim of an accepted DAG follows from the asserted equations -/
+theorem checkDag_sound (h : Heur) (A : List Asserted) (nodes : List PNode) (hc : checkDag h A nodes = true) :
+    ∀ (i : Nat) (n : PNode), nodes[i]? = some n → Cong (eqsOf A) n.l n.r := by
   intro i
   induction i using Nat.strongRecOn with
   | _ i ih =>
     intro n hn
-    obtain ⟨hlt, hleaf, hc⟩ := h i n hn
-    apply cong_lift _ hc
-    intro a b hm
-    simp only [localEqs, List.mem_append, List.mem_filterMap, Option.mem_toList] at hm
-    rcases hm with ⟨j, hj, hjn⟩ | hm
-    · cases hp : nodes[j]? with
-      | none => rw [hp] at hjn; simp at hjn
-      | some p =>
-        rw [hp] at hjn
-        simp at hjn
-        obtain ⟨h1, h2⟩ := hjn
-        subst h1; subst h2
-        exact ih j (hlt j hj) p hp
-    · exact Cong.ax (hleaf (a, b) (by simpa using hm))
+    have hnode := checkFrom_all h A nodes nodes 0 hc i n hn
+    rw [Nat.zero_add] at hnode
+    by_cases hr : n.rule = .explicit
+    · apply cong_lift _ (leaf_sound h A nodes i n hr hnode)
+      intro a b hm
+      apply Cong.ax
+      simp only [eqsOf, List.mem_map, List.mem_filter] at hm ⊢
+      obtain ⟨x, ⟨hx, _⟩, he⟩ := hm
+      exact ⟨x, hx, he⟩
+    · have hcn := hnode
+      simp only [checkNode, Bool.and_eq_true, List.all_eq_true, decide_eq_true_eq] at hcn
+      obtain ⟨⟨_, hlt⟩, hacc⟩ := hcn
+      have hacc' : accepts h (premiseEqs nodes n) n.l n.r = true := by
+        cases hrule : n.rule <;> simp_all
+      apply cong_lift _ (accepts_sound h _ _ _ hacc')
+      intro a b hm
+      obtain ⟨j, p, hj, hp, h1, h2⟩ := mem_premiseEqs hm
+      rw [← h1, ← h2]
+      exact ih j (hlt j hj) p hp
 
-/-- the conclusion matches the query up to an injective renaming of slots (in either direction) -/
-theorem conclusion_transfers {A : List (Term × Term)} {l r t u : Term} (h : Cong A l r)
-    (hi : Orc.instOf l r t u = true) : Cong A t u := Orc.instOf_sound h hi
+/-- the conclusion matches the query up to an injective renaming of slots -/
+theorem conclusion_transfers {E : List (Term × Term)} {l r t u : Term} (h : Cong E l r)
+    (hi : Orc.instOf l r t u = true) : Cong E t u := Orc.instOf_sound h hi
 
-/-- what local acceptance by the oracle means (the run-time half): equal labels after running the oracle with
-the node's local equations give `Cong (localEqs ..)` -/
-theorem oracle_accepts_sound (E : List (Term × Term)) (pool : List Nat) (univ : Array Term)
-    (index : Std.HashMap String Nat) (cands : List (Nat × Nat)) (a b : Nat) (t u : Term) :
-    let o := ({ E := E, pool := pool, univ := univ, cls := Array.range univ.size, index := index } : Orc).run cands
-    o.univ[a]? = some t → o.univ[b]? = some u → o.find a = o.find b → Cong E t u :=
-  fun ha hb hab => SV.C01.oracle_sound E pool univ index cands a b t u ha hb hab
+/-- end-to-end statement used by the check: accepted DAG + matching root ⇒ the queried equation holds in the spec -/
+theorem explanation_valid (h : Heur) (A : List Asserted) (nodes : List PNode) (root : PNode) (t u : Term)
+    (hc : checkDag h A nodes = true) (hroot : nodes.getLast? = some root)
+    (hq : Orc.instOf root.l root.r t u = true) : Cong (eqsOf A) t u := by
+  have : nodes[nodes.length - 1]? = some root := by
+    rw [List.getLast?_eq_getElem?] at hroot; exact hroot
+  exact conclusion_transfers (checkDag_sound h A nodes hc _ root this) hq
+
+/-! non-vacuity: a two-node DAG (asserted leaf, then symmetry) is accepted by a trivial heuristic, so the
+hypothesis of `checkDag_sound` is satisfiable; and a wrong step is rejected. -/
+section Examples
+def c0 : Term := .mk { v := 1, fields := [] } []
+def c1 : Term := .mk { v := 2, fields := [] } []
+def c2 : Term := .mk { v := 3, fields := [] } []
+def tinyHeur : Heur :=
+  { uni := fun _ _ _ =>
+      let univ := #[c0, c1, c2]
+      ([], univ, (((({} : Std.HashMap String Nat).insert (Term.key c0) 0).insert (Term.key c1) 1).insert (Term.key c2) 2)),
+    gen := fun _ => [(0, 1), (1, 0), (0, 2), (1, 2)],
+    fuel := 3 }
+def tinyA : List Asserted := [⟨"j0", c0, c1⟩]
+def goodDag : List PNode := [⟨.explicit, [], some "j0", c0, c1⟩, ⟨.symm, [0], none, c1, c0⟩]
+def badDag : List PNode := [⟨.explicit, [], some "j0", c0, c1⟩, ⟨.symm, [0], none, c2, c0⟩]
+#guard checkDag tinyHeur tinyA goodDag
+#guard !checkDag tinyHeur tinyA badDag
+#guard firstBad tinyHeur tinyA badDag 0 badDag == some 1
+end Examples
 
 end SV.C07
